@@ -46,3 +46,50 @@ pub fn ceil_log2_plus1(x: u32) -> u32 {
     }
     n
 }
+
+/// Decoder side of C.3.3: value of `token` given the extra bits (already read, LSB-first `nbits` bits).
+pub fn hybrid_decode(c: &HybridConf, token: u32, extra: u32) -> u32 {
+    let split = 1u32 << c.split_exponent;
+    if token < split {
+        return token;
+    }
+    let n = hybrid_nbits(c, token) as u64;
+    let lsb = c.lsb_in_token as u64;
+    let msb = c.msb_in_token as u64;
+    let low = (token as u64) & ((1u64 << lsb) - 1);
+    let mut t = (token as u64) >> lsb;
+    t &= (1u64 << msb) - 1;
+    t |= 1u64 << msb;
+    ((((t << n) | extra as u64) << lsb) | low) as u32
+}
+
+/// ISO/IEC 18181-1 C.3.3 kSpecialDistances (the table of the standard, [x offset, y distance]).
+#[rustfmt::skip]
+pub const SPECIAL_DISTANCES: [[i32; 2]; 120] = [
+    [0, 1], [1, 0], [1, 1], [-1, 1], [0, 2], [2, 0], [1, 2], [-1, 2], [2, 1], [-2, 1],
+    [2, 2], [-2, 2], [0, 3], [3, 0], [1, 3], [-1, 3], [3, 1], [-3, 1], [2, 3], [-2, 3],
+    [3, 2], [-3, 2], [0, 4], [4, 0], [1, 4], [-1, 4], [4, 1], [-4, 1], [3, 3], [-3, 3],
+    [2, 4], [-2, 4], [4, 2], [-4, 2], [0, 5], [3, 4], [-3, 4], [4, 3], [-4, 3], [5, 0],
+    [1, 5], [-1, 5], [5, 1], [-5, 1], [2, 5], [-2, 5], [5, 2], [-5, 2], [4, 4], [-4, 4],
+    [3, 5], [-3, 5], [5, 3], [-5, 3], [0, 6], [6, 0], [1, 6], [-1, 6], [6, 1], [-6, 1],
+    [2, 6], [-2, 6], [6, 2], [-6, 2], [4, 5], [-4, 5], [5, 4], [-5, 4], [3, 6], [-3, 6],
+    [6, 3], [-6, 3], [0, 7], [7, 0], [1, 7], [-1, 7], [5, 5], [-5, 5], [7, 1], [-7, 1],
+    [4, 6], [-4, 6], [6, 4], [-6, 4], [2, 7], [-2, 7], [7, 2], [-7, 2], [3, 7], [-3, 7],
+    [7, 3], [-7, 3], [5, 6], [-5, 6], [6, 5], [-6, 5], [8, 0], [4, 7], [-4, 7], [7, 4],
+    [-7, 4], [8, 1], [8, 2], [6, 6], [-6, 6], [8, 3], [5, 7], [-5, 7], [7, 5], [-7, 5],
+    [8, 4], [6, 7], [-6, 7], [7, 6], [-7, 6], [8, 5], [7, 7], [-7, 7], [8, 6], [8, 7],
+];
+
+/// Copy distance (1-based, before clamping to the number of decoded symbols) of C.3.3 for a
+/// decoded distance value.
+pub fn lz77_distance(value: u32, dist_multiplier: u32) -> u64 {
+    if dist_multiplier == 0 {
+        value as u64 + 1
+    } else if value < 120 {
+        let [dx, dy] = SPECIAL_DISTANCES[value as usize];
+        let d = dx as i64 + dist_multiplier as i64 * dy as i64;
+        if d < 1 { 1 } else { d as u64 }
+    } else {
+        value as u64 - 119
+    }
+}
